@@ -650,11 +650,13 @@ func (fr *Frame) havoc(st, pre *State, mods map[string]*modInfo) {
 		switch {
 		case m.whole:
 			st.heaps[name] = vc.fresh("hv", hs)
+			vc.nilMapAxioms(name, hs, st.heaps[name]) // H4 patch
 			if vc.logStores {
 				vc.storeLog = append(vc.storeLog, storeRec{heap: name, whole: true})
 			}
 		case m.fresh:
 			nh := vc.fresh("hv", hs)
+			vc.nilMapAxioms(name, hs, nh) // H4 patch
 			r := vc.freshName("q_r")
 			conds := []string{lt(r, preAlloc)}
 			for _, t := range m.targets {
@@ -697,4 +699,16 @@ func (fr *Frame) havoc(st, pre *State, mods map[string]*modInfo) {
 func innerSort(s string) string {
 	s = strings.TrimPrefix(s, "(Array Int ")
 	return strings.TrimSuffix(s, ")")
+}
+
+// nilMapAxioms (H4 patch): a havoced map heap still describes the nil map (reference 0) as empty; the entry heaps get
+// these facts in VC.heap, a wholesale havoc (loop head or call with `modifies all(maptype)`) used to lose them.
+func (vc *VC) nilMapAxioms(name, sort, h string) {
+	if strings.HasPrefix(name, "Md|") && strings.HasPrefix(sort, "(Array Int (Array ") && strings.HasSuffix(sort, " Bool))") {
+		ks := strings.TrimSuffix(strings.TrimPrefix(sort, "(Array Int (Array "), " Bool))")
+		vc.emit(fmt.Sprintf("(assert (forall ((qk %s)) (! (not (select (select %s 0) qk)) :pattern ((select (select %s 0) qk)))))", ks, h, h))
+	}
+	if strings.HasPrefix(name, "Ml|") {
+		vc.emit(fmt.Sprintf("(assert (= (select %s 0) 0))", h))
+	}
 }
